@@ -168,3 +168,57 @@ func vh_compress_negotiation() {
 	}
 	vObserve("adv", advertised)
 }
+
+// ---- framer.finish for a body of ANY length: the header describes exactly the bytes that follow ----
+//
+// The body content is never read (the compressor is a contract stub: any output of any length), its
+// length is symbolic up to 1 MiB. Whatever finish decides (compress or not, per-frame flag), the
+// finished buffer is self-delimiting: length field = bytes after the header, and the compression flag
+// in the header says whether those bytes are the compressor's output.
+type vLenComp struct{}
+
+var vLenCompCalls, vLenCompOut int
+
+func (vLenComp) Name() string { return "vlen" }
+func (vLenComp) Encode(data []byte) ([]byte, error) {
+	vLenCompCalls++
+	n := vInt("compressed_len")
+	vAssume(n >= 0 && n <= 1<<20)
+	vLenCompOut = n
+	return vSliceOfLen(n), nil
+}
+func (vLenComp) Decode(data []byte) ([]byte, error) { return data, nil }
+
+func vh_finish_sizes() {
+	ver := byte(vBound("version"))
+	n := vInt("body_len")
+	vAssume(n >= 0 && n <= 1<<20)
+	var comp Compressor
+	if vBool("compressor_negotiated") {
+		comp = vLenComp{}
+	}
+	vLenCompCalls, vLenCompOut = 0, 0
+	f := newFramer(comp, ver)
+	f.writeHeader(f.flags, opQuery, 5)
+	hs := len(f.buf)
+	f.buf = append(f.buf, vSliceOfLen(n)...)
+	err := f.finish()
+	vAssert(err == nil, "C18/finish/no-error-below-the-frame-size-limit")
+	if err != nil {
+		return
+	}
+	body := len(f.buf) - hs
+	var announced int
+	if ver < 3 {
+		announced = int(f.buf[4])<<24 | int(f.buf[5])<<16 | int(f.buf[6])<<8 | int(f.buf[7])
+	} else {
+		announced = int(f.buf[5])<<24 | int(f.buf[6])<<16 | int(f.buf[7])<<8 | int(f.buf[8])
+	}
+	vAssert(announced == body, "C07/finish/header-length-is-the-bytes-that-follow")
+	if f.buf[1]&flagCompress != 0 {
+		vAssert(comp != nil && vLenCompCalls == 1 && body == vLenCompOut, "C18/finish/flagged-body-is-the-compressors-output")
+	} else {
+		vAssert(vLenCompCalls == 0 && body == n, "C18/finish/unflagged-body-is-the-plain-body")
+	}
+	vObserve("body", body >= 0)
+}
